@@ -192,6 +192,12 @@ func zvC21Check(r *vh.Run, c zvC21Case) {
 		r.Violation(vh.Sig("clause", "crash", "state", c.State, "kind", c.Kind, "length_class", lc), c, "the speaker panicked: %.600s", res.Crash)
 		return
 	}
+	if res.Status == vsched.Horizon {
+		// e.g. one 4 KiB UPDATE whose zero padding is 4000 valid NLRI: long, not wedged. Capped, never a violation.
+		r.Cap("step horizon reached in a case (very large valid UPDATE)")
+		r.Count("horizon_cases", 1)
+		return
+	}
 	if res.Status != vsched.Completed {
 		r.Violation(vh.Sig("clause", "wedged-"+res.Status.String(), "state", c.State, "kind", c.Kind), c, "execution %s: %s", res.Status, res.Blocked)
 		return
